@@ -532,3 +532,56 @@ Proof.
     destruct (J_out _ _ _ HJ _ _ Em) as [[e [H _]]|H]; [congruence|].
     apply Z.leb_le in H. rewrite H. reflexivity.
 Qed.
+
+(* ------------------------------------------------------------------ how the key set can change *)
+(* a key leaves the cache only through flush, through a lookup of that key finding it expired,
+   or through eviction by put / set_max_size; it enters only through put *)
+Definition keyset_rule (cl : call) (hb ha : Z -> bool) (x : Z) : Prop :=
+  match cl with
+  | Get key => x <> key -> ha x = hb x
+  | Put key _ => (x = key -> ha x = true) /\ (x <> key -> hb x = false -> ha x = false)
+  | Flush (Some key) => ha x = if x =? key then false else hb x
+  | Flush None => ha x = false
+  | SetMax _ => hb x = false -> ha x = false
+  | HitsFor _ | Hits | Misses | Snapshot | ResetStats => ha x = hb x
+  end.
+
+Lemma ahas_false : forall a x, ahas a x = false <-> afind (a_list a) x = None.
+Proof.
+  intros a x. unfold ahas. destruct (afind (a_list a) x); split; intros; congruence.
+Qed.
+
+Lemma afind_firstn_none : forall n l k, afind l k = None -> afind (firstn n l) k = None.
+Proof.
+  intros n l k H. destruct (afind (firstn n l) k) eqn:E; [|reflexivity].
+  apply afind_firstn_some in E. congruence.
+Qed.
+
+Lemma keyset_step : forall cl a k x, NoDup (akeys (a_list a)) ->
+  keyset_rule cl (ahas a) (ahas (snd (fst (alru_step cl a k)))) x.
+Proof.
+  intros cl a k x Hnd. destruct cl as [key|key v|[key|]|mx|key| | | |]; cbn [keyset_rule alru_step].
+  - intros Hne. destruct (afind (a_list a) key) as [e|] eqn:E; [|reflexivity].
+    destruct (tick k) as [t k1]. destruct (a_exp (e_val e) <=? t); cbn [fst snd]; unfold ahas, alru_miss, alru_set_list; cbn [a_list].
+      rewrite afind_aremove by exact Hnd. destruct (key =? x) eqn:E1; [apply Z.eqb_eq in E1; congruence|reflexivity].
+    + cbn [afind e_key]. destruct (key =? x) eqn:E1; [apply Z.eqb_eq in E1; congruence|].
+      rewrite afind_aremove, E1 by exact Hnd. reflexivity.
+  - cbn [fst snd]. unfold ahas, alru_miss, alru_set_list. cbn [a_list afind e_key]. split.
+    + intros ->. rewrite Z.eqb_refl. reflexivity.
+    + intros Hne Hb. destruct (key =? x) eqn:E1; [apply Z.eqb_eq in E1; congruence|].
+      destruct (afind (a_list a) x) eqn:E2; [discriminate|].
+      unfold atrim. rewrite afind_firstn_none; [reflexivity|].
+      rewrite afind_aremove, E1 by exact Hnd. exact E2.
+  - cbn [fst snd]. unfold ahas, alru_miss, alru_set_list. cbn [a_list]. rewrite afind_aremove by exact Hnd.
+    rewrite (Z.eqb_sym x key). destruct (key =? x); reflexivity.
+  - reflexivity.
+  - cbn [fst snd]. unfold ahas, alru_miss, alru_set_list. cbn [a_list]. intros Hb.
+    destruct (afind (a_list a) x) eqn:E2; [discriminate|].
+    unfold atrim. rewrite afind_firstn_none by exact E2. reflexivity.
+  - destruct (afind (a_list a) key) as [e|]; [|reflexivity].
+    destruct (tick k) as [t k1]. destruct (a_exp (e_val e) <=? t); reflexivity.
+  - reflexivity.
+  - reflexivity.
+  - reflexivity.
+  - reflexivity.
+Qed.
